@@ -82,14 +82,25 @@ func VSetDump(a *AliveDialerSet, gid int, active bool, id func(*Dialer) int) str
 	return sb.String()
 }
 
-// VSetLatency is what NotifyLatencyChange reads for this node (the model's oracle input).
+// VSetLatency is what NotifyLatencyChange read for this node the last time it was notified (the
+// model's oracle input).  Whether a measurement exists is re-read from the node (it cannot change
+// between the notification and the end of the event); the value is the one the set recorded at that
+// notification (dialerToLatency), because RestoreHealthSnapshot resets the back-off penalty AFTER it
+// has notified the groups.
 func VSetLatency(a *AliveDialerSet, d *Dialer) (int64, bool) {
-	switch {
-	case isMinLatencyPolicy(a.selectionPolicy):
-		raw, has := d.snapshotLatencyForPolicy(a.CheckTyp, a.selectionPolicy)
-		return int64(raw), has
+	if !isMinLatencyPolicy(a.selectionPolicy) {
+		return 0, false
 	}
-	return 0, false
+	raw, has := d.snapshotLatencyForPolicy(a.CheckTyp, a.selectionPolicy)
+	if !has {
+		return 0, false
+	}
+	a.mu.RLock()
+	defer a.mu.RUnlock()
+	if seen, ok := a.dialerToLatency[d]; ok {
+		return int64(seen), true
+	}
+	return int64(raw), true
 }
 
 func VSetRegistered(a *AliveDialerSet, d *Dialer) bool {
